@@ -27,6 +27,7 @@ Definition EWf (ls : locals elocal) : Prop :=
     | EWait :: _ => wait_pc pc = true
     | ESet :: _ => set_pc pc = true
     | EReset :: _ => pc = ER0
+    | EOcc :: _ => False
     | [] => False
     end.
 
@@ -56,11 +57,11 @@ Proof.
   destruct (epcs (ls t)) as [pc|] eqn:Hpc.
   - destruct (ev_step t (est g) pc) as [e' pc'] eqn:Hst. specialize (W t pc Hpc).
     destruct pc'; cbn [snd epcs eprog] in *; try discriminate; inversion H0; subst;
-      destruct (eprog (ls t)) as [|[| |] r]; try contradiction;
+      destruct (eprog (ls t)) as [|[| | |] r]; try contradiction;
       try (destruct (ev_step_wait_closed _ _ _ _ _ W Hst) as [H|H]; [exact H|discriminate]);
       try (destruct (ev_step_set_closed _ _ _ _ _ W Hst) as [H|H]; [exact H|discriminate]);
       try (subst pc; cbn in Hst; inversion Hst).
-  - destruct (eprog (ls t)) as [|[| |] r]; cbn [snd epcs eprog] in *; [congruence| | |];
+  - destruct (eprog (ls t)) as [|[| | |] r]; cbn [snd epcs eprog] in *; [congruence| | | |discriminate];
       inversion H0; subst; reflexivity.
 Qed.
 
@@ -75,7 +76,7 @@ Proof.
     destruct (epcs (ls t)) as [pc|] eqn:Hpc.
     + destruct (ev_step t (est g) pc) as [e' pc'] eqn:Hst. specialize (W t pc Hpc).
       destruct pc'; cbn [fst elog]; try exact H.
-      destruct (eprog (ls t)) as [|[| |] r]; try contradiction; cbn [app].
+      destruct (eprog (ls t)) as [|[| | |] r]; try contradiction; cbn [app].
       * intros t0 b [H0|H0]; [|eauto]. injection H0 as H01 H02. subst b.
         apply (ev_step_done_wait t _ pc e'); [|exact Hst].
         destruct pc; try discriminate; auto; exfalso; cbn [ev_step] in Hst.
@@ -83,7 +84,8 @@ Proof.
         -- destruct (blocked (eag (est g) t)); discriminate.
       * intros t0 b [H0|H0]; [discriminate|eauto].
       * exact H.
-    + destruct (eprog (ls t)) as [|[| |] r]; exact H.
+    + destruct (eprog (ls t)) as [|[| | |] r]; try exact H.
+      cbn [fst elog]. intros t0 b [H0|H0]; [discriminate|eauto].
   - split; [intros t pc H; discriminate|intros t b []].
 Qed.
 
@@ -184,7 +186,7 @@ Proof.
       - destruct (D H H0) as [s H1]. exists s. rewrite Hq. exact H1. }
   destruct (epcs (ls t)) as [pc|] eqn:Hpc.
   2:{ (* dispatch of the next operation: local *)
-      destruct (eprog (ls t)) as [|[| |] r]; cbn [fst snd est]; [apply ELive_same; exact L| | |];
+      destruct (eprog (ls t)) as [|[| | |] r]; cbn [fst snd est]; [apply ELive_same; exact L| | | |];
         apply (ELive_simple (est g) (est g) ls t _ L); cbn; auto; try (intros p Hp; congruence);
         try (intros Hb; destruct (bk _ _ L _ Hb) as [H1 _]; congruence); try discriminate;
         intros Hf Hne; right; repeat split; auto; congruence. }
@@ -306,7 +308,7 @@ Proof.
     cbn [fst snd est]. apply (ELive_simple e _ ls t _ L); cbn; auto; try (intros p Hp; congruence);
       try (intros Hb; rewrite Hnb in Hb by congruence; discriminate); try discriminate.
   - (* EDone never stored *)
-    specialize (W t _ Hpc). destruct (eprog (ls t)) as [|[| |] r]; try contradiction; discriminate.
+    specialize (W t _ Hpc). destruct (eprog (ls t)) as [|[| | |] r]; try contradiction; discriminate.
 Qed.
 
 Lemma event_live_inv sched progs :
@@ -343,6 +345,16 @@ Proof.
     + apply negb_false_iff in Hst. destruct (bk _ _ L _ Hst) as [_ [Hin|[s [p [H1 _]]]]].
       * rewrite Hq in Hin. destruct Hin.
       * destruct (Hno _ _ H1).
-    + destruct (eprog (snd c t)) as [|[| |] r]; try contradiction; discriminate.
+    + destruct (eprog (snd c t)) as [|[| | |] r]; try contradiction; discriminate.
   - destruct (eprog (snd c t)); [split; reflexivity|discriminate].
+Qed.
+
+(* the event's spinlock is held across model steps exactly by a thread inside set()'s notify_all
+   (pc ESN): the lock-step harness schedules that critical section as one entry *)
+Lemma event_lock_owner sched progs :
+  let c := e_run sched progs in
+  forall t, elk (est (fst c)) = Some t <-> exists p, epcs (snd c t) = Some (ESN p).
+Proof.
+  intros c t. destruct (event_live_inv sched progs) as [_ L]. fold c in L.
+  split; [apply (o1 _ _ L)|intros [p H]; apply (o2 _ _ L _ _ H)].
 Qed.
